@@ -31,6 +31,7 @@ type Lemma struct {
 	Concl   string
 	Measure string
 	Pattern string
+	Pattern2 string // alternative trigger
 	Before  string // prelude text preceding the lemma (what its proof may use)
 	NoExport bool  // proved on every run but not added to the prelude as an axiom
 }
@@ -54,6 +55,9 @@ func expandLemmas(pre string) (string, []*Lemma) {
 		pat := ""
 		if cur.Pattern != "" {
 			pat = " :pattern (" + cur.Pattern + ")"
+		}
+		if cur.Pattern2 != "" {
+			pat += " :pattern (" + cur.Pattern2 + ")"
 		}
 		if !cur.NoExport {
 			fmt.Fprintf(&out, "(assert (forall (%s) (! (=> %s %s)%s)))\n", strings.Join(bs, " "), cur.Hyp, cur.Concl, pat)
@@ -90,6 +94,8 @@ func expandLemmas(pre string) (string, []*Lemma) {
 				cur.Measure = rest
 			case "pattern":
 				cur.Pattern = joinSp(cur.Pattern, rest)
+			case "pattern2":
+				cur.Pattern2 = joinSp(cur.Pattern2, rest)
 			}
 			continue
 		}
@@ -168,6 +174,9 @@ func lemmaObligation(lm *Lemma) *Oblig {
 		pat := ""
 		if lm.Pattern != "" {
 			pat = " :pattern (" + lm.Pattern + ")"
+		}
+		if lm.Pattern2 != "" {
+			pat += " :pattern (" + lm.Pattern2 + ")"
 		}
 		// induction hypothesis: every instance with a smaller, non-negative measure
 		ctx = append(ctx, fmt.Sprintf("(assert (forall (%s) (! (=> (and (<= 0 %s) (< %s %s) %s) %s)%s)))",
